@@ -37,6 +37,28 @@ CHECKS['C02'] = dict(
          'approximation with stated eps (1e-6 smooth, 5e-4 curved-curved corners) included in the tolerance.',
     design='DESIGN.md 4/C02')
 
+CHECKS['C03'] = dict(
+    technique='exhaustive enumeration of event-wise DRO model specs on the real rsome.dro; independent worst-case expectation by a vertex-level moment LP',
+    text='Every DroSpec of a bounded grammar (1-3 (4) scenarios with integer or unordered string labels, 7 support kinds per '
+         'scenario incl. Wasserstein-style lifted supports, 9 expectation-set structures on events (sub-events, overlapping, '
+         'non-contiguous), 5 probability sets, every set partition x affine mask x declaration order of the decisions, '
+         'E / piecewise / bi-affine / robust objectives, E- and robust rows with default, forall(ambiguity) and '
+         'forall(support) attachments) is built and solved on the real code; the returned decisions are read back through the '
+         'public expression-call API and the worst-case expectation of the objective and of every E-row over the declared '
+         'ambiguity set is computed by an independent LP over distributions on support vertices.',
+    note='Exact for polytopic supports and max-of-affine integrands. Trusted: SciPy HiGHS, rsmc/ref/droref.py. Bounds: S<=3 (4 '
+         'thorough), dz<=2, ny<=2.',
+    design='DESIGN.md 4/C03')
+CHECKS['C04'] = dict(
+    technique='same exhaustive DroSpec enumeration; differential against an independently dualised vertex-level moment LP joined with the decisions',
+    text='Same state space as C03; the reported optimum is compared with the optimum of ONE reference LP: decisions per declared '
+         'event block (affine coefficients restricted to the mask) plus multipliers of a generic LP dual of the moment problem '
+         'over support vertices. Covers the special cases of the statement (singleton supports + fixed probabilities = sample '
+         'average; single scenario without expectation information = robust model). Partitions/masks/event structures give '
+         'different optima, so structural slips change the value.',
+    note='Trusted: SciPy HiGHS, rsmc/ref/droref.py (generic dualiser ~60 lines). Tolerance 1e-5 relative.',
+    design='DESIGN.md 4/C04')
+
 NOT_YET = {}
 
 
